@@ -159,14 +159,15 @@ PAIRS = {
     ("T-F3", "T-G3"): [((), ()), (("a",), ("e",)), (("a", "a"), ("e",)), (("a", "b"), ("e", "f")), (("a", "a", "b"), ("e", "f", "e")), (("a",), ("f",))],
     ("T-F4", "T-G4"): [((), ()), (("a",), ("e",)), (("a", "b"), ("e",)), (("a", "b", "a"), ("e", "e")), (("a", "b"), ()), (("a", "b", "a"), ("e",))],
     ("T-G4", "T-F4"): [((), ())],
+    ("T-F5", "T-G1"): [((), ()), (("a",), ("e",)), (("b",), ()), (("a", "b"), ("e",)), (("b", "a"), ()), (("a",), ("e", "e"))],
 }
 
 
 def jobs(tier, seed):
     out = []
     quick = tier == "quick"
-    combos = [("T-F1", "T-G1", [0, 1]), ("T-F2", "T-G2", [0]), ("T-F4", "T-G4", [0])] if quick else \
-        [("T-F1", "T-G1", [0, 1, 2]), ("T-F2", "T-G2", [0, 1]), ("T-F3", "T-G3", [0, 1]), ("T-F4", "T-G4", [0, 1])]
+    combos = [("T-F1", "T-G1", [0, 1]), ("T-F2", "T-G2", [0]), ("T-F4", "T-G4", [0]), ("T-F5", "T-G1", [0, 1])] if quick else \
+        [("T-F1", "T-G1", [0, 1, 2]), ("T-F2", "T-G2", [0, 1]), ("T-F3", "T-G3", [0, 1]), ("T-F4", "T-G4", [0, 1]), ("T-F5", "T-G1", [0, 1, 2])]
     for fn, gn, bits in combos:
         F, G = transducer(fn), transducer(gn)
         # initial/final weights always present in quick (arc weights free)
